@@ -1395,7 +1395,7 @@ func printPruneItemList(items []PruneItem, useColor bool, termWidth int) {
 		line.WriteString(" ")
 
 		// Title
-		title := item.Title
+		title := oneLine(item.Title)
 		if strings.TrimSpace(title) == "" {
 			title = "(no title)"
 		}
